@@ -6,3 +6,5 @@ import TransportVerif.Props.C20
 import TransportVerif.Props.C06
 import TransportVerif.Props.C07
 import TransportVerif.Props.C18
+import TransportVerif.Props.C02
+import TransportVerif.Props.C03
